@@ -82,7 +82,7 @@ CHECKS["C19"] = dict(
 CHECKS["C03"] = dict(
     category="proof",
     text="Smoother steps carry the RTS gain (step contracts: G P^- = P Phi^T, xi = m - G m^-, Xi = P - G P^- G^T; merged for the fixed-point smoother); MarkovSequence.evaluate_marginals and Smoother.finalize are verified to return the backward-recursion marginals started from the law at the final output time, calibrated, with filtering marginals stacked; the inductive step of 'smoothed <= filtered' is proved with a sum-of-squares ghost factor; solve_fixed_grid is verified (induction rule over the grid scan) to hand over a final state whose terminal smoothing marginal equals the filtering marginal at the final grid point.",
-    note="N, n, d enumerated; 'RTS recursion = joint smoothing posterior of the linearised model' (chain rule of Gaussian densities) is a lemma about the specification, assumed; agreement of fixed-interval and fixed-point smoothing follows from both being proved against the same specification plus the C09 composition law; solve_adaptive_save_every_step (native Python loop) is not covered",
+    note="N, n, d enumerated; 'RTS recursion = joint smoothing posterior of the linearised model': the one-datum case is machine-checked as a lemma (filtering + one RTS step = conditioning of the joint Gaussian, inverse-free with ghost gains, contracts/lemmas.py); the extension to longer horizons is induction with the Markov property, stated; agreement of fixed-interval and fixed-point smoothing follows from both being proved against the same specification plus the C09 composition law; solve_adaptive_save_every_step (native Python loop) is not covered",
     design_ref="DESIGN.md section 4 (C03)",
 )
 CHECKS["C04"] = dict(
@@ -101,7 +101,7 @@ CHECKS["C11"] = dict(
 CHECKS["C12"] = dict(
     category="proof",
     text="logpdf of the three normals is the Gaussian log-density through a triangular factor of the covariance; loss_lml_terminal_values is the log-density of the datum under N(E_i m, E_i P E_i^T + diag(std^2)); loss_lml_timeseries is the sum (or mean) over time of log p(y_k | y_{k+1..N}) obtained by backward Kalman filtering along the backward Markov factorisation with per-time (and per-dimension) noise -- stated stage-wise (prediction, innovation, gain, update), inverse-free with ghost gains.",
-    note="N, n, d, tcoeff_index enumerated; 'sum of conditional log-densities = joint log-density under the smoothing posterior plus noise' is the chain rule (lemma about the specification, assumed); |w|^2 = (u-m)^T cov^-1 (u-m) and 2 sum log|C_ii| = log det cov for a triangular factor C are stated lemmas; singular innovation covariances (lstsq path) are not covered: the contract is verified with solve_triu",
+    note="N, n, d, tcoeff_index enumerated; 'sum of conditional log-densities = joint log-density under the smoothing posterior plus noise' is the chain rule (lemma about the specification, assumed); |w|^2 = (u-m)^T cov^-1 (u-m) and det cov = (prod C_ii)^2 for a triangular factor C are machine-checked lemmas (n <= 3 quick, 4 thorough; the logarithm rule log x^2 = 2 log|x| is left to mathematics); singular innovation covariances (lstsq path) are not covered: the contract is verified with solve_triu",
     design_ref="DESIGN.md section 4 (C12)",
 )
 
